@@ -642,6 +642,7 @@ def run(ctx):
     from rules import c13, c05
     c13.r3_cipher_tables(ctx, po, pb, rule_id='C20.R7')
     c05.r1d_map_accounting(ctx, po, rule_id='C20.R8')
+    c05.r1c_fresh_holders(ctx, po, rule_id='C20.R16')
     r6_token_flags(ctx, pdb)
     r9_attribute_iteration(ctx, pdb)
     r10_round_up(ctx, [('ossl-file', po), ('botan-file', pb)])
